@@ -428,12 +428,19 @@ func RunDoc(c *hx.Ctx, idx int, verbose bool) { runDoc(c, "doc", idx, verbose) }
 // content quotes other formats' signatures (mention.go).
 func RunMention(c *hx.Ctx, idx int, verbose bool) { runDoc(c, "mention", idx, verbose) }
 
+// RunOpening does the same for document #idx of the stream of HTML documents
+// that differ in how the front of the file is spelled (opening.go).
+func RunOpening(c *hx.Ctx, idx int, verbose bool) { runDoc(c, "opening", idx, verbose) }
+
 func runDoc(c *hx.Ctx, kind string, idx int, verbose bool) {
 	r := hx.NewRng(c.Seed).Fork(uint64(idx)) // independent of how much of c.Rng earlier stages used: replays from (seed, index)
 	var d *Doc
 	if kind == "mention" {
 		r = hx.NewRng(c.Seed).Fork(0x4D454E54).Fork(uint64(idx))
 		d = genMentionDoc(r, idx, fmt.Sprintf("tok%dm%04x", idx, r.Intn(1<<16)))
+	} else if kind == "opening" {
+		r = hx.NewRng(c.Seed).Fork(0x4F50454E).Fork(uint64(idx))
+		d = htmlOpeningDoc(r, idx, fmt.Sprintf("tok%do%04x", idx, r.Intn(1<<16)))
 	} else {
 		token := fmt.Sprintf("tok%dq%04x", idx, r.Intn(1<<16))
 		// ZIP formats have many layouts per document, PDF and HTML one: more of those
@@ -464,8 +471,8 @@ func runDoc(c *hx.Ctx, kind string, idx int, verbose bool) {
 		if li == 0 {
 			canonDet = det
 			if d.Sniffable {
-				c.Check("C20/detect-own-format", det == d.Format, kase, func() string {
-					return fmt.Sprintf("%s document (%s) detected as %s", d.Format, d.Variant, det)
+				c.Check("C20/detect-own-format"+d.KeySuffix, det == d.Format, kase, func() string {
+					return fmt.Sprintf("%s document (%s) detected as %s; the file starts %q", d.Format, d.Variant, det, clip(string(data), 120))
 				})
 			} else {
 				c.Check("C20/detect-unsniffable-not-misdetected", det == FUnknown || det == d.Format, kase, func() string {
@@ -511,8 +518,8 @@ func runDoc(c *hx.Ctx, kind string, idx int, verbose bool) {
 						d.Format, d.Variant, l.Name, l.Decoys, name, want, clip(text, 80))
 				})
 				if d.Sniffable {
-					c.Check("C20/mismatch-cross-check", verr != nil, k2, func() string {
-						return fmt.Sprintf("%s document named %q (asks for %s): the content-vs-extension check passed it", d.Format, name, want)
+					c.Check("C20/mismatch-cross-check"+d.KeySuffix, verr != nil, k2, func() string {
+						return fmt.Sprintf("%s document (%s) named %q (asks for %s): the content-vs-extension check passed it; the file starts %q", d.Format, d.Variant, name, want, clip(string(data), 120))
 					})
 				}
 				c.Count("mismatch:" + d.Format + " as " + want)
@@ -597,7 +604,7 @@ func malformed(c *hx.Ctx) {
 }
 
 func Run(c *hx.Ctx) {
-	c.Rep.Rule = "names: every stem × extension × case variant + random names; magic: crafted prefixes, the 500-byte XML window, random prefixes; zipfmt: all single members, ordered pairs and random member lists over markers/prefixes/decoys/mimetype contents; documents: the harness's own writers for PDF, DOCX, ODT, XLSX, PPTX, HTML, EPUB 2/3 (+ HTML the sniffer cannot classify), each in canonical/reversed/markers-last/shuffled member orders and with decoy members of other formats in front/behind/between, each stored under all eight extensions, case variants, no and unsupported extensions and opened with tabula.Open(name).Text(); mentions: the same for documents of every format whose content quotes the signatures of the OTHER formats (%PDF-x.y, PK\\x03\\x04, doctype / <html>, mimetype strings, main part names) in title, meta, comments, attributes, body text, PDF comments / streams / page text / Info, ZIP member names and stored member data - marks × offsets (front, inside / across / beyond 512, 1024, 4096 bytes) swept for HTML and PDF, sampled for the ZIP formats and unclassifiable HTML; EPUB DRM matrix: rights file, unparsable metadata, all subsets of manifest items × algorithm, random subset×algorithm mixes, entry permutations and URI case/path forms; malformed: truncated/empty/markerless archives, random bytes. non-trivial = a document opened with its token in the text / an op with a definite format"
+	c.Rep.Rule = "names: every stem × extension × case variant + random names; magic: crafted prefixes, the 500-byte XML window, random prefixes; zipfmt: all single members, ordered pairs and random member lists over markers/prefixes/decoys/mimetype contents; documents: the harness's own writers for PDF, DOCX, ODT, XLSX, PPTX, HTML, EPUB 2/3 (+ HTML the sniffer cannot classify), each in canonical/reversed/markers-last/shuffled member orders and with decoy members of other formats in front/behind/between, each stored under all eight extensions, case variants, no and unsupported extensions and opened with tabula.Open(name).Text(); mentions: the same for documents of every format whose content quotes the signatures of the OTHER formats (%PDF-x.y, PK\\x03\\x04, doctype / <html>, mimetype strings, main part names) in title, meta, comments, attributes, body text, PDF comments / streams / page text / Info, ZIP member names and stored member data - marks × offsets (front, inside / across / beyond 512, 1024, 4096 bytes) swept for HTML and PDF, sampled for the ZIP formats and unclassifiable HTML; openings: HTML documents sweeping how the front of the file may be spelled under the HTML/XML grammar - root start tag alone / after a DOCTYPE / omitted after one / after an XML declaration (XHTML) x the whitespace after the first keyword (one blank, LF, CRLF, CR, TAB, FF, runs and indentation) x letter case of tag name and DOCTYPE keywords x 0-3 attributes in quoted/unquoted/empty form spread over lines x legacy DOCTYPE strings x leading whitespace; EPUB DRM matrix: rights file, unparsable metadata, all subsets of manifest items × algorithm, random subset×algorithm mixes, entry permutations and URI case/path forms; malformed: truncated/empty/markerless archives, random bytes. non-trivial = a document opened with its token in the text / an op with a definite format"
 	extOps(c)
 	magicOps(c)
 	zipfmtOps(c)
@@ -608,6 +615,9 @@ func Run(c *hx.Ctx) {
 	}
 	for i, k := 0, c.N(1, 6)*mentionRound(); i < k; i++ {
 		RunMention(c, i, false)
+	}
+	for i, k := 0, c.N(2, 12)*openingRound(); i < k; i++ {
+		RunOpening(c, i, false)
 	}
 	m := c.N(60, 600)
 	for i := 0; i < m; i++ {
@@ -628,6 +638,8 @@ func Replay(c *hx.Ctx, kase map[string]interface{}) {
 		RunDoc(c, idx, true)
 	case "mention":
 		RunMention(c, idx, true)
+	case "opening":
+		RunOpening(c, idx, true)
 	case "drm":
 		RunDRM(c, idx, true)
 	case "ext":
